@@ -597,6 +597,10 @@ func (s *Stream) copyRead(p []byte) (int, error) {
 }
 
 func (s *Stream) copyWriteAndFlush(p []byte) (int, error) {
+	// a closed stream had given its buffers back, and its session maybe had unmapped the share memory.
+	if !s.IsOpen() {
+		return 0, ErrStreamClosed
+	}
 	return s.sendBuf.copyWriteAndFlush(p)
 }
 
